@@ -556,6 +556,27 @@ def call(ex, st, fr, callee, last, args, argops, dest):
         old = ex.read_ref(st, args[0])
         ex.write_ref(st, args[0], _none())
         return old
+    if re.match(r"^(Option|Result)::<.*>::map::<.*>$", c) and len(args) == 2 and isinstance(args[1], E.FnItem) and isinstance(args[0], E.EnumV):
+        # map over a function item: identity, or a local function called like any other
+        v = args[0]
+        is_opt = c.startswith("Option")
+        if (is_opt and v.variant == 0) or (not is_opt and v.variant == 1):
+            return v
+        wrap = (lambda val: _some(val)) if is_opt else (lambda val: E.EnumV("Result", 0, (val,)))
+        fname = args[1].name
+        if re.match(r"^((std|core)::convert::)?identity(::<.*>)?$", fname):
+            _use("Option/Result::map over core::convert::identity")
+            return wrap(v.fields[0])
+        flast = re.sub(r"::<[^:]*>$", "", fname).split("::")[-1]
+        cands = [f for f in ex.prog.by_last.get(flast, []) if f.kind == "fn" and len(f.params) == 1]
+        mself = re.match(r"^<(.+?) as ", fname)
+        if mself:
+            cands = [f for f in cands if norm_type(f.params[0][1]) == norm_type(mself.group(1))]
+        if len(cands) != 1:
+            return NotImplemented
+        _use("Option/Result::map over a function item (local function executed from its MIR)")
+        alts = ex_call_local(ex, st, cands[0], [v.fields[0]], fr)
+        return _map_alts(ex, st, alts, wrap)
     if re.match(r"^Option::<.*>::unwrap_or$", c):
         _use("Option::unwrap_or")
         v = args[0]
@@ -666,6 +687,26 @@ def call(ex, st, fr, callee, last, args, argops, dest):
     if r is not NotImplemented:
         return r
 
+    # Ord::max / Ord::min / Ord::clamp (core's default methods) on Decimal operands with concrete scales, through the CONTRACT
+    # "Ord::cmp on Decimals is the comparison of the values" (obligation: C08's cmp cases)
+    m = re.match(r"^<Decimal as (?:std::cmp::)?Ord>::(max|min|clamp)$", c)
+    if m and all(isinstance(a, E.Agg) and len(a.fields) == 2 and is_conc(a.fields[1].t) for a in args):
+        _use("CONTRACT <Decimal as Ord>::%s = core's default method over cmp, cmp = comparison by value (obligation C08)" % m.group(1))
+        smax = max(int(a.fields[1].t) for a in args)
+        val = [T.mul(a.fields[0].t, 10 ** (smax - int(a.fields[1].t))) for a in args]
+        if m.group(1) == "max":       # max_by: v1 only if strictly greater
+            gt = T.lt(val[1], val[0])
+            return E._Alts([(gt, args[0]), (T.bnot(gt), args[1])])
+        if m.group(1) == "min":       # min_by: v2 only if v1 is strictly greater
+            gt = T.lt(val[1], val[0])
+            return E._Alts([(T.bnot(gt), args[0]), (gt, args[1])])
+        bad = T.lt(val[2], val[1])
+        lo = T.lt(val[0], val[1])
+        hi = T.lt(val[2], val[0])
+        return _outcome_alts(ex, st, [(bad, _panic(ex, st, "assertion failed: min <= max")),
+                                      (T.band(T.bnot(bad), lo), args[1]),
+                                      (T.band(T.bnot(bad), T.bnot(lo), hi), args[2]),
+                                      (T.band(T.bnot(bad), T.bnot(lo), T.bnot(hi)), args[0])])
     # default trait methods of core implemented over local impls
     m = re.match(r"^<(&*\w+) as (?:std::cmp::)?PartialOrd(?:<(.*)>)?>::(lt|le|gt|ge)$", c)
     if m:
@@ -802,7 +843,10 @@ def _tls_models(ex, st, fr, c, last, args):
         a = args[0]
         return E.Opaque("LocalKey", a)
     m = re.match(r"^(?:std::thread::)?LocalKey::<.*?>::with::<.*?(\{closure@[^}]*\}).*>$", c)
-    if m:
+    mfn = None
+    if not m and isinstance(args[-1] if args else None, E.FnItem):
+        mfn = re.match(r"^(?:std::thread::)?LocalKey::<.*?>::with::<.*>$", c)
+    if m or mfn:
         key = _deref_all(ex, st, args[0])
         if not (isinstance(key, E.Opaque) and key.tag == "LocalKey"):
             return NotImplemented
@@ -811,19 +855,37 @@ def _tls_models(ex, st, fr, c, last, args):
         if isinstance(acc, E.Agg) and acc.kind.startswith("closure:"):
             accf = ex.prog.closures.get(acc.kind[8:])
         if accf is None:
-            # accessor given as a const path: find `...::{constant#0}::{closure#0}`
+            # accessor given as a const path: find `<KEY>::{constant#0}::{closure#0}` (the key's own accessor when there are several keys)
             cands = [f for f in ex.prog.funcs if f.kind == "fn" and "{constant#0}::{closure#0}" in f.name]
+            if len(cands) > 1 and isinstance(acc, E.Opaque) and isinstance(acc.payload, str):
+                kname = acc.payload.split("::{constant#0}")[0].split("::")[-1]
+                cands = [f for f in cands if ("::" + kname + "::{constant#0}") in ("::" + f.name)]
             accf = cands[0] if len(cands) == 1 else None
         if accf is None:
             return NotImplemented
         body = accf.text
         mt = re.search(r"&/\*tls\*/ ([\w:{}#]+)", body)
         mi = re.search(r"get_or_init::<.*>\(.*?, (\w+)\)", body)
-        if not mt or not mi:
-            raise E.Unsupported("storage behind LocalKey is not a #[thread_local] static with lazy init: cannot model")
+        eager = None
+        if mt and not mi and ("EagerStorage" in body or "&raw const" in body):
+            # `thread_local!(static K: T = const { init })`: one cell per thread holding the const initialiser
+            kname = accf.name.split("::{constant#0}")[0].split("::")[-1]
+            eager = [f for f in ex.prog.funcs if f.kind != "fn" and f.name.endswith("__RUST_STD_INTERNAL_INIT") and
+                     (kname in f.name or len([g for g in ex.prog.funcs if g.kind != "fn" and g.name.endswith("__RUST_STD_INTERNAL_INIT")]) == 1)]
+            if len(eager) != 1:
+                eager = None
+        if not mt or not (mi or eager):
+            raise E.Unsupported("storage behind LocalKey is not a #[thread_local] static with lazy or const init: cannot model")
         _use("LocalKey::with over `&/*tls*/ static`: one lazily initialised cell per thread (std's thread_local! contract)")
         thread = st.tags.get("thread", 0)
         cell = ("tlcell", mt.group(1), thread)
+        if cell not in st.heap and eager:
+            _use("thread_local! with const initialiser: the thread's cell starts with the value of the INIT const")
+            outs = ex_call_local(ex, st, eager[0], [], fr)
+            if len(outs) != 1 or outs[0][2].kind != "return":
+                return NotImplemented
+            st.heap[cell] = outs[0][2].value
+            st.obs.append(("tls-init", cell, outs[0][2].value))
         if cell not in st.heap:
             initf = [f for f in ex.prog.by_last.get(mi.group(1), [])]
             if len(initf) != 1:
@@ -833,10 +895,14 @@ def _tls_models(ex, st, fr, c, last, args):
                 return NotImplemented
             st.heap[cell] = outs[0][2].value
             st.obs.append(("tls-init", cell, outs[0][2].value))
+        st.obs.append(("tls-access", cell))
+        if mfn:
+            # `KEY.with(Cell::get)` and the like: the function item is applied to a reference to the thread's cell
+            r = call(ex, st, fr, args[1].name, re.sub(r"::<.*>$", "", args[1].name).split("::")[-1], [E.RefV(box=cell)], None, None)
+            return r
         clo = ex.prog.closures.get(norm_type(m.group(1)))
         if clo is None:
             return NotImplemented
-        st.obs.append(("tls-access", cell))
         return E._Enter(clo, [args[1], E.RefV(box=cell)])
     m = re.match(r"^(?:std::sync::atomic::|core::sync::atomic::)?Atomic(?:::<(\w+)>|Bool|U8|Usize|U32|I32)::(new|load|store)$", c)
     if m:
@@ -851,6 +917,19 @@ def _tls_models(ex, st, fr, c, last, args):
         st.obs.append(("shared-write", args[0].box[1]))
         ex.write_ref(st, args[0], args[1])
         return E.UNIT
+    if re.match(r"^(std::cell::|core::cell::)?Cell::<.*>::new$", c):
+        _use("Cell::new (cell content)")
+        return args[0]
+    mc = re.match(r"^(std::cell::|core::cell::)?Cell::<.*>::(get|set|replace|take)$", c)
+    if mc and isinstance(args[0], E.RefV):
+        _use("Cell::get / set / replace (content of the cell the reference points to)")
+        if mc.group(2) == "get":
+            return ex.read_ref(st, args[0])
+        old_v = ex.read_ref(st, args[0])
+        if mc.group(2) == "take":
+            return NotImplemented
+        ex.write_ref(st, args[0], args[1])
+        return E.UNIT if mc.group(2) == "set" else old_v
     if re.match(r"^(std::cell::)?RefCell::<.*>::new$", c):
         _use("RefCell::new (cell content)")
         return args[0]
